@@ -8,7 +8,8 @@ ROOT = os.path.dirname(os.path.dirname(os.path.abspath(__file__)))
 CLAIMED = {
     "C03": ("3.C03", "MC_Bdd: TLC decides 'connective = Canon(pointwise)' for all 65 536 operand pairs of AllWF(3) x 8 connectives, not, "
             "ite on AllWF(2)^3 (thorough AllWF(3)^3); the spec's result tables are replayed case by case through the real BDDEnv "
-            "(non-adjacent symbols, operands checked unchanged); random 6-7 variable calls are recorded and validated by Trace_Bdd.",
+            "(non-adjacent symbols, operands checked unchanged); recorded real calls are validated by Trace_Bdd: 400 000 (thorough 2 M) uniformly "
+            "random operand pairs over 4 variables, random operands over 4, 5 and 6-7 variables.",
             "TLA+ model checking (TLC) of Bdd.tla + spec->impl table replay + impl->spec trace validation"),
     "C04": ("3.C04", "MC_Bdd: exists/all = Canon(set-level quantification) for every f in AllWF(3) and every variable list of length <= 3 "
             "over 1..4 (repeats, all orders, an unmentioned variable); tables replayed through BDDEnv::exists/all/exists_impl; random "
@@ -16,14 +17,15 @@ CLAIMED = {
             "TLA+ model checking (TLC) + spec->impl table replay + impl->spec trace validation"),
     "C05": ("3.C05", "MC_Bdd: aln/amn/exn and the five list-vs-list comparisons equal Canon(arithmetic definition) for all lists of length "
             "<= 3 over AllWF(2), bounds -2..len+2, all list pairs of length <= 2; tables replayed through the real code; random lists of "
-            "6-variable operands with extreme i64 bounds validated by Trace_Bdd.",
+            "3- and 6-variable operands with extreme i64 bounds validated by Trace_Bdd; the formula language's counting forms (every builder "
+            "formula of MC_Lang with a counting node, constants up to the literal cap) evaluated by the real solver and compared with Lang!Sem.",
             "TLA+ model checking (TLC) + spec->impl table replay + impl->spec trace validation"),
-    "C07": ("3.C07", "MC_Bdd: the spec's model algorithm satisfies ModelOK/InferOK on all of AllWF(3) (thorough AllWF(4)); the real model()/infer() "
-            "answers for every such f and for random 6-7 variable f are validated against the same predicates by Trace_Bdd (any "
-            "genuine satisfying cube is accepted).",
+    "C07": ("3.C07", "MC_Bdd: the spec's model algorithm satisfies ModelOK/InferOK on all of AllWF(4); the real model()/infer() answers for every such f "
+            "(65 536) and for random 6-7 variable f are validated against the same predicates by Trace_Bdd (any genuine satisfying cube is "
+            "accepted); rsbdd -m -t runs (also combined with -c, against the retained diagram the tool prints without -m) by Trace_Cli.",
             "TLA+ model checking (TLC) + impl->spec trace validation against the property predicate"),
-    "C20": ("3.C20", "MC_Bdd: RetainR satisfies RetainOK on AllWF(3) (thorough AllWF(4)) x 3 filters; the real retain_choice_bottom_up answers for "
-            "every such f and random 6-7 variable f are validated against RetainOK (direction of implication, WF, support) by Trace_Bdd.",
+    "C20": ("3.C20", "MC_Bdd: RetainR satisfies RetainOK on AllWF(4) x 3 filters; the real retain_choice_bottom_up answers for every such f (196 608 calls) "
+            "and random 6-7 variable f are validated against RetainOK (direction of implication, WF, support) by Trace_Bdd; rsbdd -c runs by Trace_Cli.",
             "TLA+ model checking (TLC) + impl->spec trace validation against the property predicate"),
 }
 
@@ -37,8 +39,8 @@ CLAIMED.update({
     "C13": ("3.C13", "MC_Env: exhaustive exploration of the hash-consing environment machine (NV=2, bounded live handles, all operations incl. "
             "model/retain/clean/fp/drop) with invariants I_Leaves, I_Unique, I_WF, I_Canon, I_Closed and action properties append-only and "
             "history-freedom; TLC-simulated behaviours replayed step by step in fresh and long-lived real environments; real random histories "
-            "(NV=6, 300 operations incl. formula evaluations sharing the environment) logged with pointer identities, table deltas and the "
-            "fresh-environment result, validated event by event by Trace_Env.",
+            "(NV=6, 300 operations incl. formula evaluations sharing the environment, results being dropped, release phases) logged with pointer "
+            "identities (weakly pinned), table deltas, size() and the fresh-environment result, validated event by event by Trace_Env.",
             "TLA+ model checking (TLC) of Env.tla + spec->impl behaviour replay + impl->spec trace validation with pointer identities"),
 })
 
@@ -46,7 +48,7 @@ CLAIMED.update({
     "C19": ("3.C19", "MC_BddSet: the concrete BDDSet machine (characteristic functions on Bdd.tla) refines the abstract set machine for every reachable "
             "pair of 2-bit (thorough: 3-bit) sets x every operation incl. self-aliasing, queries are pure; every transition of the abstract "
             "state graph (8192) is replayed on real BDDSets sharing an environment and observed only through contains() asked twice; random "
-            "60-operation histories over 3 bits are validated by Trace_BddSet.",
+            "histories over 3-, 5- and 8-bit universes are validated by Trace_BddSet.",
             "TLA+ model checking (TLC) refinement check + spec->impl transition replay + impl->spec trace validation"),
 })
 
@@ -58,16 +60,16 @@ CLAIMED.update({
             "is_true/is_false compared; random deep formulas (<= 6 names, monotone fixed points) are parsed and evaluated by the real code and "
             "validated by Trace_Lang against Sem.",
             "TLA+ model checking (TLC) of Lang.tla + spec->impl case replay + impl->spec trace validation"),
-    "C06": ("3.C06", "MC_Lang (Mode=fix): for every spine body (depth <= 1 quick / 2 thorough, plus simulated depth 3) that is semantically monotone in X "
+    "C06": ("3.C06", "MC_Lang (Mode=fix): for every spine body of depth <= 1, a seed-dependent 1/40 of the 750 k depth-2 bodies (thorough: all) and simulated depth-3 spines that are semantically monotone in X "
             "(all pairs of subsets), lfp/gfp X are the least/greatest fixed point against ALL subsets incl. every pre/post-fixed point "
             "(Knaster-Tarski), reached within |Asg|+1 iterations by Sem and by the evaluator model; same bodies evaluated by the real solver "
-            "under lfp/mu/gfp/nu with a termination watchdog; fp(a,t) call-by-call against Bdd!FpIter (Trace_Bdd); random monotone nests via "
+            "under lfp/mu/gfp/nu and three variable orders with a stall watchdog; fp(a,t) call-by-call against Bdd!FpIter (Trace_Bdd); random monotone nests via "
             "Trace_Lang.",
             "TLA+ model checking (TLC) + spec->impl case replay + impl->spec trace validation"),
-    "C08": ("3.C08", "MC_Syntax: every token sequence over the 20-class alphabet up to length 4 (thorough 5) is decided by the grammar in TLC and by the "
+    "C08": ("3.C08", "MC_Syntax: every token sequence over the 20-class alphabet up to length 5 (3.4 M; thorough 6) is decided by the grammar in TLC and by the "
             "real parser (two renderings each): accepted <=> sentence and same tree; every string of <= 3 (thorough 4, sampled) pieces of the "
             "character alphabet is tokenized by both; all spellings/longest-match cases as TLC theorems; Parse(Print(t)) = t for 1.0 M trees; "
-            "random and mutated texts are validated by Trace_Lang (token list, Ok/Err, tree).",
+            "random, character-mutated and token-mutated texts are validated by Trace_Lang (token list, Ok/Err, tree).",
             "TLA+ model checking (TLC) of Syntax.tla + spec->impl exhaustive enumeration replay + impl->spec trace validation"),
     "C09": ("3.C09", "MC_Lang: Mentions(Ev(f)) within FV(f) within NamesOf(f) for 1.0 M formulas; the real .free_vars/.vars/support of the evaluated "
             "diagram are compared with FV/NamesOf (in id order, default and explicit ordering) for every emitted case and for random deep "
@@ -84,12 +86,12 @@ CLAIMED.update({
             "TLA+ model checking (TLC) of Cli.tla + impl->spec trace validation of real CLI runs"),
     "C11": ("3.C11", "Cli!IdOrder/FormulaVars specify variable ids from ordering text and formula; for every formula x ordering variant (permutation, "
             "subset, superset with unused names, duplicates, stray punctuation/keywords/numbers) the CLI run (-o) and the API route (NamedSymbol "
-            "vector with ids 5,9,13..) are validated by Trace_Cli: names in id order, header order, same function as Sem under the default "
+            "vectors under five sparse id schemes, with a stall watchdog) are validated by Trace_Cli: names in id order, header order, same function as Sem under the default "
             "order, -r export = id order, and re-importing the export reproduces the byte-identical table (digest under the same key).",
             "TLA+ specification of the ordering + impl->spec trace validation of CLI and API runs"),
     "C12": ("3.C12", "Syntax/Lang/Cli give every pipeline action an Ok/Err post-state and the trace specifications have no action for a panic. "
             "All token sequences (<= 4) and piece strings (<= 3) of the C08 universes plus seeded byte-level inputs (random bytes, invalid UTF-8, "
-            "token soups, mutated formulas, extreme/non-ASCII digits, unbalanced brackets, empty, nesting <= 200, <= 64 KiB) are run in-process as "
+            "token soups, mutated formulas, extreme and mixed-width non-ASCII digit runs, unbalanced brackets, empty, nesting <= 200, <= 64 KiB) are run in-process as "
             "formula and as ordering file under catch_unwind and through the binary with random option sets (exit status 0/1 required).",
             "TLA+ totality of the specified pipeline + exhaustive enumeration replay + seeded byte-level driving validated by Trace_Lang"),
     "C14": ("3.C14", "MC_Dot: a TLA+ model of both exporters satisfies DotBddOK/DotTreeOK for every diagram over 3 (thorough 4) variables x 3 filters and "
@@ -104,7 +106,7 @@ CLAIMED.update({
     "C15": ("3.C15", "Puzzles!QueensSolutions is the reference definition. For n = 1..7 (thorough 1..10) the real generator output is parsed by the real "
             "parser and MC_Models decides exact model-set equality: TLC's pruned search machine over partial assignments visits every model "
             "(invariant Sound: it is a placement of n non-attacking queens; Lemma: three-valued evaluation agrees with full evaluation) and "
-            "ASSUME Complete evaluates the tree under every reference solution. For n up to 12 (thorough 24) Trace_Puzzle checks the structural "
+            "ASSUME Complete evaluates the tree under every reference solution. For n up to 16 (thorough 32) Trace_Puzzle checks the structural "
             "conditions that imply equality (attack-pair coverage, '= 1' list per row and column, no list joins non-attacking cells); rsbdd -t -ft "
             "on the generated file must list exactly the solutions (n = 4, 5); shape check at n = 256.",
             "TLA+ model checking (TLC search machine) of the emitted formula against the puzzle definition + trace validation"),
@@ -115,8 +117,9 @@ CLAIMED.update({
             "TLA+ specification of the puzzle + impl->spec trace validation using the denotational semantics"),
     "C17": ("3.C17", "Puzzles!SudokuSolutions (cell-by-cell, independent index arithmetic). For r = 1, 2: sudoku_gen output for the empty grid, single hints, "
             "random hint patterns incl. contradictory / full / short / over-long texts and 8 blank symbols incl. the quote is parsed by the real "
-            "parser; MC_Models decides exact model-set equality (search machine + Complete). r = 3: three solved grids satisfy the formula and "
-            "near misses (two cells of a unit swapped) falsify it (Trace_Puzzle).",
+            "parser (blank symbols of 1-4 bytes, non-ASCII whitespace); MC_Models decides exact model-set equality (search machine + Complete). "
+            "r = 2, 3 (thorough 4): the formula is exactly the exact-cover encoding (one '= 1' list per cell / row-digit / column-digit / box-digit "
+            "plus the givens); r = 3: solved grids satisfy it, near misses (cell swaps, band swaps) falsify it (Trace_Puzzle).",
             "TLA+ model checking (TLC search machine) of the emitted formula against the puzzle definition + trace validation"),
     "C18": ("3.C18", "Puzzles!GraphOK/Feasible/ConvertSpec/KColourable. Every request V in 0..5 (quick: sampled above 3) x E in 0..V(V-1)+2 x {-u} x "
             "{--complete} x {--dot} is executed 3 (thorough 12) times; every run is one event validated by Trace_Puzzle (exactly E distinct edges "
